@@ -10,7 +10,8 @@ RULE = ('exhaustive small scope over boundary timestamps (multiples of a day -1/
         'filter/start/end combinations, all period lists from get_periods over small ranges and both signs, all day '
         'vectors over [-2, total+1]; plus seeded random longer inputs. Non-trivial = the case reaches a planted '
         'feature (filter excludes the minimum, timestamp exactly on a boundary, day on a period boundary, '
-        'out-of-range day, negative delta, several periods).')
+        'out-of-range day, negative delta, several periods). Filters / in_range arrays whose length differs from the '
+        'data are included (numpy broadcasting / IndexError / ValueError behaviour is modelled).')
 EXHAUSTIVE = {'quick': True, 'thorough': True}
 TRUSTED = ['numpy float64 arithmetic on the generated timestamps is exact (integer / quarter-second values '
            '< 2^40): floor((t-m)/86400.0) = integer floor division (checked by this correspondence, not proved)',
@@ -41,8 +42,19 @@ def run(case):
     if op == 'periods':
         s = BASE + dt.timedelta(seconds=case['s'])
         e = BASE + dt.timedelta(seconds=case['e'])
-        r = dth.get_periods(s, e, case['unit'], case['delta'])
+        delta = case['delta'] + 0.5 if case.get('fdelta') else case['delta']
+        r = dth.get_periods(s, e, case['unit'], delta)
         return [_secs(x) for x in r]
+    if op == 'pipe':
+        s = BASE + dt.timedelta(seconds=case['s'])
+        e = BASE + dt.timedelta(seconds=case['e'])
+        ps = dth.get_periods(s, e, case['unit'], case['delta'])
+        pbd = dth.generate_period_offset_map(ps)
+        ts = np.array([float(t) for t in case['ts']], dtype=np.float64)
+        flt = None if case['flt'] is None else np.array(case['flt'], dtype=bool)
+        days, inr = dth.get_days(ts, flt, np.float64(case['s']), np.float64(case['e2']))
+        r = dth.get_period_offsets(pbd, days, inr)
+        return [int(x) for x in r]
     if op == 'days':
         tps = case['tps']
         ts = np.array([t / tps for t in case['ts']], dtype=np.float64)
@@ -67,12 +79,22 @@ def run(case):
     raise ValueError(op)
 
 
+def _unit(u):
+    """ticks of one period unit; 0 = rejected by the argument validation"""
+    if u in ('day', 'days'):
+        return DAY
+    if u in ('week', 'weeks'):
+        return 7 * DAY
+    return 0
+
+
 def to_val(case):
     op = case['op']
     opt = lambda x: [] if x is None else [x]
     if op == 'periods':
-        unit = DAY * (7 if case['unit'].startswith('week') else 1)
-        return [1, case['s'], case['e'], unit, case['delta']]
+        return [1, case['s'], case['e'], 0 if case.get('fdelta') else _unit(case['unit']), case['delta']]
+    if op == 'pipe':
+        return [5, DAY, case['s'], case['e'], _unit(case['unit']), case['delta'], case['ts'], opt(case['flt']), case['e2']]
     if op == 'days':
         return [2, DAY * case['tps'], case['ts'], opt(case['flt']), opt(case['s']), opt(case['e'])]
     if op == 'pmap':
@@ -97,8 +119,17 @@ def features(case, model):
     if op == 'periods':
         if case['delta'] < 0: f.append('neg-delta')
         if not isinstance(model, str) and len(model) >= 3: f.append('periods>=3')
-        if (case['e'] - case['s']) % (DAY * (7 if case['unit'].startswith('week') else 1) * max(1, abs(case['delta']))) == 0:
+        if _unit(case['unit']) == 0 or case.get('fdelta'):
+            f.append('invalid-argument')
+        elif (case['e'] - case['s']) % (_unit(case['unit']) * max(1, abs(case['delta']))) == 0:
             f.append('end-on-boundary')
+    elif op == 'pipe':
+        f.append('pipeline')
+        if not isinstance(model, str):
+            if -1 in model: f.append('pipe-out-of-range')
+            if len(set(model) - {-1}) >= 2: f.append('pipe-several-periods')
+        if case['delta'] < 0: f.append('pipe-neg-delta')
+        if case['e2'] > case['e']: f.append('pipe-end-after-last-boundary')
     elif op == 'days':
         if case['flt'] is not None and 0 in case['flt']: f.append('filter-excludes')
         if case['flt'] is not None and case['fdt'] == 'int8': f.append('int8-filter')
@@ -109,6 +140,11 @@ def features(case, model):
         if case['s'] is not None: f.append('start')
         if case['e'] is not None: f.append('end')
         if case['s'] is not None and any(t < case['s'] for t in case['ts']): f.append('negative-day')
+        if not case['ts']: f.append('empty-ts')
+        if case['flt'] is not None and len(case['flt']) != len(case['ts']):
+            f.append('len-mismatch')
+            if 1 in (len(case['flt']), len(case['ts'])) and not isinstance(model, str): f.append('broadcast')
+        if case['s'] is None and case['e'] is None and case['flt'] is None: f.append('no-args')
     elif op == 'pmap':
         if len(case['ps']) >= 3: f.append('periods>=3')
         if case['ps'] and case['ps'][-1] < case['ps'][0]: f.append('descending')
@@ -116,6 +152,11 @@ def features(case, model):
         if case['inr'] is not None: f.append('in_range')
         if any(d < 0 or d >= len(case['pbd']) for d in case['days']): f.append('day-out-of-range')
         if len(set(case['pbd'])) >= 2: f.append('several-periods')
+        if any(d < 0 for d in case['days']) and not isinstance(model, str): f.append('negative-day-wraps')
+        if case['inr'] is not None and len(case['inr']) != len(case['days']):
+            f.append('len-mismatch')
+            if not isinstance(model, str): f.append('broadcast')
+        if not case['pbd']: f.append('empty-map')
     return f
 
 
@@ -138,6 +179,26 @@ def gen(tier, rng):
                 if unit.endswith('s') and delta not in (-2, 1):
                     continue
                 yield {'op': 'periods', 's': s * hd, 'e': e * hd, 'unit': unit, 'delta': delta}
+    for unit in ('month', 'Day', '', 5, None):
+        for delta in (0, 1, -1):
+            yield {'op': 'periods', 's': 0, 'e': 3 * hd, 'unit': unit, 'delta': delta}
+    for unit in ('day', 'week'):
+        for delta in (0, 1, -1):
+            yield {'op': 'periods', 's': 0, 'e': 3 * hd, 'unit': unit, 'delta': delta, 'fdelta': True}
+    # the whole pipeline: get_periods -> generate_period_offset_map, get_days -> get_period_offsets
+    pool = [-1, 0, 1, DAY - 1, DAY, 2 * DAY, 3 * DAY - 1, 3 * DAY, 7 * DAY - 1, 7 * DAY, 9 * DAY + 5, 14 * DAY]
+    for (unit, delta) in (('day', 1), ('day', 2), ('day', 3), ('week', 1), ('day', -2), ('week', -1)):
+        ends = [0, DAY, 3 * DAY, 6 * DAY + 5, 7 * DAY, 14 * DAY]
+        for e in ([x for x in ends] if delta > 0 else [-x for x in ends]):
+            for e2 in sorted({e, e - 1, 3 * DAY, 7 * DAY, 15 * DAY}):
+                for n in range(0, 3):
+                    tss = list(itertools.product(pool, repeat=n))
+                    if len(tss) > 40:
+                        tss = rng.sample(tss, 80 if big else 40)
+                    for ts in tss:
+                        for flt in [None] + [list(f) for f in itertools.product([0, 1], repeat=n)][:-1]:
+                            yield {'op': 'pipe', 's': 0, 'e': e, 'e2': e2, 'unit': unit, 'delta': delta,
+                                   'ts': list(ts), 'flt': flt}
     # get_days
     for tps in (1, 4):
         d = DAY * tps
@@ -155,6 +216,17 @@ def gen(tier, rng):
                             fdts = ['bool'] if flt is None else ['bool', 'int8']
                             for fdt in fdts:
                                 yield {'op': 'days', 'tps': tps, 'ts': list(ts), 'flt': flt, 'fdt': fdt, 's': s, 'e': e}
+    # filters whose length differs from the field's (outside the property; the model follows numpy broadcasting)
+    d = DAY
+    for ts in ([], [d + 1], [0, d], [d, 0, 2 * d + 5]):
+        for k in range(0, 4):
+            if k == len(ts):
+                continue
+            for flt in itertools.product([0, 1], repeat=k):
+                for s in (None, 1, d):
+                    for e in (None, d, 2 * d + 1):
+                        for fdt in ('bool', 'int8'):
+                            yield {'op': 'days', 'tps': 1, 'ts': list(ts), 'flt': list(flt), 'fdt': fdt, 's': s, 'e': e}
     # generate_period_offset_map on outputs of get_periods-like progressions and irregular lists
     offs = [0, 3600, DAY - 1, DAY, 2 * DAY, 2 * DAY + 5, 7 * DAY, 9 * DAY, 14 * DAY]
     for n in range(0, 5 if big else 4):
@@ -175,6 +247,13 @@ def gen(tier, rng):
                 dsl = rng.sample(dsl, 400)
             for days in dsl:
                 yield {'op': 'poff', 'pbd': pbd, 'days': list(days), 'inr': None}
+                for inr in itertools.product([0, 1], repeat=k):
+                    yield {'op': 'poff', 'pbd': pbd, 'days': list(days), 'inr': list(inr)}
+    for pbd in ([], [0, 0, 1]):
+        for days in ([], [1], [1, 2], [0, 3], [-1, 2, 1]):
+            for k in range(0, 4):
+                if k == len(days):
+                    continue
                 for inr in itertools.product([0, 1], repeat=k):
                     yield {'op': 'poff', 'pbd': pbd, 'days': list(days), 'inr': list(inr)}
     # random longer
@@ -215,8 +294,14 @@ def shrink(case):
             yield {'op': 'pmap', 'ps': case['ps'][:i] + case['ps'][i + 1:]}
 
 TECHNIQUE = 'Coq proof (integer model of the date helpers = bucketing spec) + exhaustive small-scope differential correspondence against /repo'
-LEVEL_TEXT = ('Theorems in coq/Props/C20.v prove, for all inputs, that the Gallina model of get_periods / get_days / '
-              'generate_period_offset_map / get_period_offsets equals the bucketing specification; the model is tied to '
-              '/repo by running the extracted model and the real functions on the same ~1.3e5 generated cases per run.')
+LEVEL_TEXT = ('28 theorems in coq/Props/C20.v (all closed under the global context) prove, for all inputs and sizes, that the '
+              'Gallina model of get_periods / get_days / generate_period_offset_map / get_period_offsets equals the '
+              'specification of Spec/DatesSpec.v: arithmetic progression with the exact count and a fuel bound, '
+              'floor-day + origin + in-range flag, half-open period intervals, -1 iff flag off, exact error/IndexError '
+              'characterisation, and the composed pipeline (t - start) / period_length. The model is tied to the repository '
+              'by running the extracted model and the real functions on the same ~1.4e5 generated cases per quick run.')
 LEVEL_NOTE = ('Trusted: Coq kernel, extraction, harness. Timestamps are modelled as exact integer ticks; binary64 '
-              'floor((t-m)/86400.0) = integer division is exercised, not proved. numpy/datetime are modelled, not verified.')
+              'floor((t-m)/86400.0) = integer division is exercised by the correspondence on boundary timestamps, and '
+              'proved separately at the level of IEEE round-to-nearest in coq/Props/C20_float.v (depends on the Reals '
+              'axioms, not part of PROPS_FILES). numpy/datetime are modelled, not verified. get_period_offsets is '
+              'modelled as repaired by work/C20/fix-F-C20c.diff.')
